@@ -41,7 +41,7 @@ CLAIMED = {
    ref="DESIGN.md Part II C18"),
  "C19": dict(
    text="Datagram.tla: peer / local maximum (0 = disabled), FIFO of accepted datagrams, Pack with remaining-space rules (with / without length, padding first), network loss, receive-side size check, reader; RefusedIffTooBig, OneFramePerDatagram, PayloadUnchanged, OrderAmongArrivals, OversizedReceiveIsProtocolViolation and liveness AcceptedEventuallyOnWire. Every call sequence TLC enumerates (sizes around the limits, remaining-space values around the frame size) is executed on the real DatagramFlow / writer / reader and validated step by step; a connection-level run on the real stack decides that accepted datagrams are put on the wire and delivered whole.",
-   note="two recorded findings (frame larger than the peer's maximum can be emitted; head-of-line blocking by a datagram that fits no packet).",
+   note="TLC, JSON trace I/O, qevent telemetry for wire evidence; one recorded finding (head-of-line blocking by an accepted datagram that fits no packet).",
    ref="DESIGN.md Part II C19"),
  "C02": dict(
    text="Conn.tla states C02 over network events (every datagram with its coalesced packets and fate, every delivered copy), the packet logs of both endpoints (packet_sent / packet_received with type and number) and application events (writes, reads with content check, end of stream, completion); MC_Conn.tla, the design (numbered packets, retransmission as new numbers, a network that drops / duplicates / reorders / damages datagrams, a receiver that accepts a packet iff it arrived unmodified and is new), is model-checked: tampered and replayed packets are never accepted, only sent data is delivered, the monitor raises no alarm on the design, and with bounded faults everything is delivered. Fault schedules enumerated by TLC (Gen_Conn: every assignment of deliver/drop/duplicate/delay/bit-flip/truncate to the first K datagrams of each direction with at most 2 faults) plus seeded random bounded and unbounded profiles are run against the real client+server stack over an in-memory network under virtual time, and every recorded event is judged by TLC against Conn.tla: packets logged as received must have arrived intact and only once, bytes read must have been written by the peer, nothing panics, under bounded faults the transfer completes, under unbounded ones both applications are told within 3 idle periods.",
